@@ -51,6 +51,21 @@ def _(E, m, a, c0):
 @pattern(r'<(?:std::rc::)?Rc<dyn .*> as From<Box<dyn .*>>>::from|<(?:std::rc::)?Rc<.*> as From<Box<.*>>>::from')
 def _(E, m, a, c0): return RcV(RcObj(a[0].cell.v))
 
+@pattern(r"<impl [^>]* as Clone>::clone")
+def _(E, m, a, c0): return E.clone_value(E.deref(a[0]))        # `impl Trait + Clone` parameter: structural clone of whatever was passed
+
+# ------------------------------------------------------------------ operator traits on primitive integers (`Rem::rem` passed as a function value etc.): panic like the dev profile
+@pattern(r'<&?(i8|i16|i32|i64|isize|u8|u16|u32|u64|usize) as (Add|Sub|Mul|Div|Rem)(?:<&?(?:i8|i16|i32|i64|isize|u8|u16|u32|u64|usize)>)?>::\w+')
+def _(E, m, a, c0):
+    ty, op = m.groups(); lo, hi = int_bounds(ty); x, y = E.deref(a[0]), E.deref(a[1])
+    if op in ('Div', 'Rem'):
+        if E.branch(y == 0): raise Abort(f'attempt to {"divide" if op == "Div" else "calculate the remainder"} by zero')
+        if lo < 0 and E.branch(z3.And(x == lo, y == -1)): raise Abort(f'attempt to {"divide" if op == "Div" else "calculate the remainder"} with overflow')
+        return tdiv(x, y) if op == 'Div' else trem(x, y)
+    r = {'Add': x + y, 'Sub': x - y, 'Mul': x * y}[op]
+    if E.branch(z3.Or(r < lo, r > hi)): raise Abort(f'attempt to {op.lower()} with overflow')
+    return r
+
 # ------------------------------------------------------------------ BigInt (op) primitive integer, either order
 _PRIM = r'(?:u8|u16|u32|u64|usize|i8|i16|i32|i64|isize|u128|i128)'
 @pattern(r'<&?(?:BigInt|' + _PRIM + r') as (Add|Sub|Mul|Div|Rem)<&?(?:BigInt|' + _PRIM + r')>>::\w+')
